@@ -129,7 +129,7 @@ def sources(draw, geff=False):
             "via_file": draw(st.integers(0, 3)) == 0, "legacy_pos": draw(st.integers(0, 4)) == 0,
             "features_arg": draw(st.integers(0, 3)) == 0,
             "sparse": draw(st.booleans()), "pair": draw(st.booleans()),
-            "mutation": draw(st.sampled_from([None, None, None, "duplicate_id", "unknown_parent", "self_link",
+            "mutation": draw(st.sampled_from([None, None, None, "duplicate_id", "duplicate_row", "unknown_parent", "self_link",
                                               "missing_column", "unmapped_key", "mapped_to_missing"])),
             "mpick": draw(st.integers(0, 100)),
             # valid track / lineage ids already in the source (arbitrary distinct values), mapped
@@ -239,6 +239,11 @@ def _mutate(inp, df, nm):
         i, j = pick % len(df), (pick + 1) % len(df)
         df.loc[df.index[j], idc] = df.loc[df.index[i], idc]
         return df, nm, mut
+    if mut == "duplicate_row":
+        # a row repeated verbatim (tables concatenated from overlapping exports): the id occurs twice
+        i = pick % len(df)
+        df = pd.concat([df, df.iloc[[i]]], ignore_index=(pick % 2 == 0))
+        return df, nm, "duplicate_id"
     if mut == "unknown_parent":
         df = df.copy()
         ids = df[idc].tolist()
